@@ -1,7 +1,7 @@
 """C04 - inbound messages are delivered once, in order, however the stream is fragmented (structural clauses)."""
 import ast
 
-from ..astutil import make_cfg, call_name, fn_calls, must_pass, node_calls, walk_no_nested, header_exprs
+from ..astutil import make_cfg, call_name, fn_calls, must_pass, node_calls, walk_no_nested, header_exprs, strip_doc
 from ..raises import Raises
 from ..locks import FieldKinds
 from .c08 import universe, held_at_entry
@@ -88,7 +88,8 @@ def check(ctx):
             loc = tainted_locals.setdefault(fi.qual, set())
             if fi.qual not in _TAINT["returns"]:
                 for s in walk_no_nested(fi.node):
-                    if isinstance(s, ast.Return) and s.value is not None and _tainted_expr(fi, s.value, loc, tainted_fields):
+                    if (isinstance(s, ast.Return) or isinstance(s, ast.Expr) and isinstance(s.value, (ast.Yield, ast.YieldFrom)) and
+                            (s := s.value)) and s.value is not None and _tainted_expr(fi, s.value, loc, tainted_fields):
                         _TAINT["returns"].add(fi.qual)
                         changed = True
                         break
@@ -98,6 +99,9 @@ def check(ctx):
                     tgt, val = s.targets[0], s.value
                 elif isinstance(s, ast.AugAssign):
                     tgt, val = s.target, s.value
+                elif isinstance(s, ast.For):
+                    # iterating over (a function of) received bytes: the loop variable carries them
+                    tgt, val = s.target, s.iter
                 if tgt is None:
                     continue
                 tv = _tainted_expr(fi, val, loc, tainted_fields)
@@ -176,6 +180,71 @@ def check(ctx):
                f"no persistent buffer on the path {['.'.join(p) for p in persistent]} is ever partially consumed: every buffer is only "
                f"appended to and cleared wholesale, so the incomplete tail of a fragmented message cannot survive to the next read - "
                f"a message split across two reads is lost or corrupted", key="carry_over")
+
+    # ---- 1a the split of the shared stream is exact (on terms) ---------------------------------------------------------
+    # what is handed to the decoder and what stays behind are the two halves X[:B] / X[B:] of the WHOLE buffered stream X, with
+    # B = get_complete_messages_length(X) measured on that same whole stream: a window / prefix of X as the measured or split
+    # value, or two different boundaries, loses or duplicates bytes for some segmentation (a message longer than the window is
+    # never complete inside it and blocks everything behind it)
+    ctx.clause = "1a-exact-split"
+    from .. import sym as _sy
+    _lps = [x for x in walk_no_nested(sfi.node) if isinstance(x, (ast.For, ast.While)) and any(y is scall for y in ast.walk(x))]
+    _itp = _sy.Interp(fold=lambda e: repo.fold(sfi.mod, e), log_calls=True, limit=20000)
+    _env0 = {a.arg: _sy.S(a.arg) for a in sfi.node.args.args}
+    try:
+        _paths = _itp.loop_body(_lps[0], {}, _sy.PathState(_env0, [], [])) if _lps else \
+            _itp.run(strip_doc(sfi.node.body), _sy.PathState(_env0, [], []))
+    except _sy.TooMany:
+        _paths = []
+
+    def _unwrap(t):
+        # copies of a bytes value are the value
+        while isinstance(t, tuple) and t and t[0] == "call" and len(t[2]) == 1 and not t[3] and \
+                t[1] in (("attr", ("name", "copy"), "copy"), ("name", "copy"), ("name", "bytes"), ("attr", ("name", "copy"), "deepcopy")):
+            t = t[2][0]
+        if isinstance(t, tuple):
+            return tuple(_unwrap(x) if isinstance(x, tuple) else x for x in t)
+        return t
+
+    def _find_calls(t, pred, out):
+        if isinstance(t, tuple):
+            if t and t[0] == "call" and pred(t):
+                out.append(t)
+            for x in t:
+                _find_calls(x, pred, out)
+        return out
+    n_split = 0
+    for p_ in _paths:
+        stores = [(_unwrap(e[2]), e[3]) for e in p_.effects if e[0] == "store" and isinstance(e[1], str) and e[1].endswith("._recv_data_stream")]
+        loads = []
+        for e in p_.effects:
+            if e[0] in ("ecall", "loop") and isinstance(e[1], tuple):
+                _find_calls(e[1], lambda c: c[1] == ("attr", ("name", "DiameterMessage"), "load"), loads)
+        if not stores or not loads:
+            continue
+        n_split += 1
+        V, vnode = stores[-1]
+        A = _unwrap(loads[0][2][0]) if loads[0][2] else None
+        X = next((_unwrap(t) for t in [V[1] if isinstance(V, tuple) and V[:1] == ("slice",) else None] if t is not None), None)
+        is_field = lambda t: isinstance(t, tuple) and t[:1] == ("attr",) and t[2] == "_recv_data_stream"
+        gl = lambda t: isinstance(t, tuple) and t[:1] == ("call",) and t[1] == ("name", "get_complete_messages_length") and len(t[2]) == 1
+        shape = isinstance(V, tuple) and V[:1] == ("slice",) and isinstance(A, tuple) and A[:1] == ("slice",)
+        if not shape or not is_field(X):
+            ctx.undecided("R-CONSERVE/exact-split", sfi.qual, sfi.where(vnode),
+                          f"carry-over `{_sy.show(V)}` / handed over `{_sy.show(A)}` are not slices of the buffered stream", key="split_shape")
+            continue
+        Bk, Bh = V[2], A[3]
+        measured = [c[2][0] for c in _find_calls((Bk, Bh), gl, [])]
+        whole = V[1] == X and A[1] == X and A[2] in (0, None) and V[3] is None
+        same_b = Bk == Bh and gl(Bk)
+        on_whole = bool(measured) and all(_unwrap(m) == X for m in measured)
+        ctx.decide(whole and same_b and on_whole, "R-CONSERVE/exact-split", sfi.qual, sfi.where(vnode),
+                   "decoder gets X[:B], the transport keeps X[B:], B measured on the whole buffered stream X",
+                   f"the receive worker hands over `{_sy.show(A)}` and keeps `{_sy.show(V)}` (complete-message length measured on "
+                   f"{[_sy.show(m) for m in measured]}): the two parts are not the halves of the whole buffered stream at one boundary "
+                   f"measured on that whole stream - bytes are lost or duplicated, or a message longer than the inspected window is "
+                   f"never seen complete and blocks every message behind it", key="exact_split")
+    ctx.floor("exact_split_paths", n_split, 1)
 
     # ---- 2 completeness guard ------------------------------------------------------------------------------------
     ctx.clause = "1b-framing"
